@@ -130,6 +130,7 @@ type Description struct {
 	Assumptions []string
 	LiftInfo    [][2]string
 	FaultKinds  []string
+	Workers     int // preferred number of worker processes (0 = 16)
 }
 
 type Component struct {
@@ -260,6 +261,9 @@ func Main(p Prop) {
 		}
 		fmt.Printf("run %d seed %d hash %x steps %d violation %q %s\n", *one, rs, res.TraceHash, res.Steps, res.Violation, res.Detail)
 	default:
+		if !isFlagSet("workers") && p.Describe().Workers > 0 {
+			*workers = p.Describe().Workers
+		}
 		os.Exit(batch(p, seed, *tier, *count, *budget, *workers, *noMin))
 	}
 }
